@@ -280,3 +280,31 @@ Example ex_default_not_a_fallback :
   get_header [120;45;107;101;121] (effective_cred (Some w) (Some d) q) = [107] /\
   get_query [107] (effective_cred (Some w) (Some d) q) = [118].
 Proof. vm_compute. repeat split. Qed.
+
+(* ---------- histories on one transport ---------- *)
+Lemma build_all_pointwise h1 s h2 :
+  nth_error (build_all (h1 ++ s :: h2)) (length h1) = Some (build_request s).
+Proof.
+  unfold build_all. rewrite map_app. cbn [map].
+  rewrite nth_error_app2; rewrite map_length; [|apply Nat.le_refl].
+  now rewrite Nat.sub_diag.
+Qed.
+
+(* the request built at some point of a history is the one the property asks for under the setting in force then *)
+Lemma build_all_current h1 op default q0 h2 :
+  nth_error (build_all (h1 ++ (op, default, q0) :: h2)) (length h1) = Some (expected_request op default q0).
+Proof. rewrite build_all_pointwise. cbn [build_request]. now rewrite effective_cred_expected. Qed.
+
+(* replacing the default credential takes effect on the next request: the earlier setting plays no part *)
+Lemma replaced_default_applies old new q1 q2 :
+  build_all [(None, Some old, q1); (None, Some new, q2)] =
+  [effective_cred None (Some old) q1; effective_cred None (Some new) q2].
+Proof. reflexivity. Qed.
+
+Example ex_refreshed_token :
+  (* token OLD, then token NEW on the same transport: the second request carries NEW; an implementation that kept the
+     first writer would send OLD, which the predicate of the run rejects *)
+  let q0 := mkReq [] [] false [] in
+  map (get_header s_authorization) (build_all [(None, Some (WBearer [79;76;68]), q0); (None, Some (WBearer [78;69;87]), q0); (None, None, q0)])
+  = [s_bearer ++ [79;76;68]; s_bearer ++ [78;69;87]; []].
+Proof. vm_compute. reflexivity. Qed.
